@@ -13,6 +13,7 @@ import Umya.Driver.C14
 import Umya.Driver.C15
 import Umya.Driver.C02
 import Umya.Driver.C05
+import Umya.Driver.C11
 import Umya.Driver.C03
 import Umya.Driver.C06
 import Umya.Driver.C01
@@ -24,6 +25,7 @@ structure DState where
   c20 : Umya.Driver.C20.State := {}
   c02 : Umya.Driver.C02.St := {}
   c05 : Umya.Driver.C05.St := {}
+  c11 : Umya.Driver.C11.St := {}
   c03 : Umya.Driver.C03.St := {}
   c06 : Umya.Driver.C06.St := {}
   c01 : Umya.Driver.C01.St := {}
@@ -45,6 +47,7 @@ def dispatch (st : DState) (line : String) : DState × String :=
   | "c04" :: args => (st, Umya.Driver.C04.handle args)
   | "c01" :: args => let (s, r) := Umya.Driver.C01.handle st.c01 args; ({ st with c01 := s }, r)
   | "c05" :: args => let (s, r) := Umya.Driver.C05.handle st.c05 args; ({ st with c05 := s }, r)
+  | "c11" :: args => let (s, r) := Umya.Driver.C11.handle st.c11 args; ({ st with c11 := s }, r)
   | "c03" :: args => let (s, r) := Umya.Driver.C03.handle st.c03 args; ({ st with c03 := s }, r)
   | "c06" :: args => let (s, r) := Umya.Driver.C06.handle st.c06 args; ({ st with c06 := s }, r)
   | "c02" :: args => let (s, r) := Umya.Driver.C02.handle st.c02 args; ({ st with c02 := s }, r)
